@@ -31,6 +31,8 @@ ResidualSum(c, s) ==
 NLevels(c, s) == Cardinality({q \in 1..Len(c.levels) : Has(c.levels[q], s)})
 
 Judge(c) ==
+    /\ Chk(Len(c.orphans) = 0, c, "C05 crossing rows of an interval that has no offset in the master curve",
+           IF Len(c.orphans) = 0 THEN 0 ELSE c.orphans[1])
     /\ \A q \in 1..Len(c.levels) :
          Chk(Len(c.levels[q].s) >= 2, c, "C05 a level of the master curve has fewer than two intervals", q)
     /\ \A k \in 1..Len(c.intervals) :
